@@ -7,6 +7,7 @@ import Kust.Wire
 import Kust.Fns
 import Kust.Res
 import Kust.Fmt
+import Kust.Walk
 import Kust.Gen.Lists
 open Lean Kust
 
@@ -100,11 +101,49 @@ def runFmt (op : String) (a : Json) : Except String Json := do
     return Json.mkObj [("ok", nodeToJson out)]
   | _ => throw s!"unknown fmt op {op}"
 
+/-- schema graph of a case: [[path…], strategy, [keys…]] entries; absent path = no schema -/
+def schemaOfJson (j : Json) : Except String Walk.Schema := do
+  let es ← (← j.getArr?).toList.mapM fun e => do
+    let a ← e.getArr?
+    let path ← strList a[0]!
+    let strat ← a[1]!.getStr?
+    let keys ← strList a[2]!
+    return (path, ({ strategy := strat, keys := keys } : Walk.SchInfo))
+  return fun p => (es.find? (fun e => e.1 = p)).map (·.2)
+
+/-- serialised-text equality of merge3 (forced top-level style): scalars by value text, collections structurally
+    up to the top-level style -/
+def serEq : Option Node → Option Node → Bool
+  | none, none => true
+  | some (.scalar _ v _), some (.scalar _ w _) => v == w
+  | some a, some b => decide (a.withStyle 0 = b.withStyle 0)
+  | _, _ => false
+
+def runWalk (op : String) (a : Json) : Except String Json := do
+  let ns := predOfJson (a.getObjValD "ns")
+  let infer := (a.getObjValD "infer").getBool?.toOption.getD false
+  let prepend := (a.getObjValD "prepend").getBool?.toOption.getD false
+  let o : Walk.Opts := { infer := infer, prepend := prepend, ns := ns }
+  let dest ← optNodeOfJson (a.getObjValD "dest")
+  let fuelOf (ns : List (Option Node)) : Nat := (ns.map fun n => (n.map Node.size).getD 0).foldl (· + ·) 4
+  match op with
+  | "merge2" =>
+    let patch ← optNodeOfJson (a.getObjValD "patch")
+    let sch ← schemaOfJson (a.getObjValD "schema")
+    return outToJson optNodeToJson (Walk.merge2 o Gen.associativeSequenceKeys sch (fuelOf [dest, patch]) patch dest)
+  | "merge3" =>
+    let orig ← optNodeOfJson (a.getObjValD "orig")
+    let upd ← optNodeOfJson (a.getObjValD "upd")
+    return outToJson optNodeToJson
+      (Walk.merge3 serEq o Gen.associativeSequenceKeys (fuelOf [dest, orig, upd]) dest orig upd)
+  | _ => throw s!"unknown walk op {op}"
+
 def dispatch (comp : String) (args : Json) : Except String Json :=
   match comp.splitOn "." with
   | ["fns", op] => runFns op args
   | ["res", op] => runRes op args
   | ["fmt", op] => runFmt op args
+  | ["walk", op] => runWalk op args
   | _ => throw s!"unknown component {comp}"
 
 partial def loop (hin hout : IO.FS.Stream) : IO Unit := do
